@@ -77,6 +77,7 @@ impl Prop for C07 {
         for c in ["restored:json", "restored:pickle-state", "via-NamedCal"] {
             v.push(c.to_string());
         }
+        v.push("fixings:other-forms-of-the-calendar".to_string());
         v
     }
     fn min_evaluations(&self, _tier: Tier) -> u64 {
@@ -420,6 +421,35 @@ impl Prop for C07 {
                     Err(_) => {
                         if n_bad == 0 {
                             ctx.violation(&format!("C07|fixings|{}|bus_date_range-error", file), json!({"file": file}));
+                        }
+                    }
+                }
+                // the business days of the calendar do not depend on how it is reached: by name string, with an
+                // unrelated settlement calendar attached ("name|other": settlement restricts settlement, not
+                // business days), or inside the CalType container - the enumerated range is the publication dates
+                if n_bad == 0 {
+                    let other = if calname == "fed" || calname == "nyc" { "tgt" } else { "fed" };
+                    let forms: Vec<(String, Option<rateslib::calendars::CalType>)> = vec![
+                        (calname.to_string(), rateslib::calendars::NamedCal::try_new(calname).ok().map(rateslib::calendars::CalType::NamedCal)),
+                        (format!("{}|{}", calname, other), rateslib::calendars::NamedCal::try_new(&format!("{}|{}", calname, other)).ok().map(rateslib::calendars::CalType::NamedCal)),
+                        (format!("UnionCal([{}], Some([{}]))", calname, other), get_calendar_by_name(other).ok().map(|o| rateslib::calendars::CalType::UnionCal(rateslib::calendars::UnionCal::new(vec![cal.clone()], Some(vec![o]))))),
+                    ];
+                    for (label, ct) in forms.iter() {
+                        ctx.eval(1);
+                        ctx.asserted(1);
+                        ctx.class("fixings:other-forms-of-the-calendar");
+                        let listed: Option<BTreeSet<i64>> = ct.as_ref().and_then(|c| match c {
+                            rateslib::calendars::CalType::NamedCal(nc) => nc.bus_date_range(&to_ndt(first), &to_ndt(last)).ok(),
+                            rateslib::calendars::CalType::UnionCal(uc) => uc.bus_date_range(&to_ndt(first), &to_ndt(last)).ok(),
+                            rateslib::calendars::CalType::Cal(cc) => cc.bus_date_range(&to_ndt(first), &to_ndt(last)).ok(),
+                        }).map(|v| v.iter().map(crate::calmodel::from_ndt).collect());
+                        let wrapped: Option<BTreeSet<i64>> = ct.as_ref().and_then(|c| c.bus_date_range(&to_ndt(first), &to_ndt(last)).ok()).map(|v| v.iter().map(crate::calmodel::from_ndt).collect());
+                        if listed.as_ref() != Some(&dates) || wrapped.as_ref() != Some(&dates) {
+                            ctx.violation(
+                                &format!("C07|fixings|{}|bus_date_range-differs-for-other-form", file),
+                                json!({"file": file, "calendar_form": label, "n_published": dates.len(), "n_listed": listed.map(|l| l.len()), "n_listed_inside_CalType": wrapped.map(|l| l.len())}),
+                            );
+                            break;
                         }
                     }
                 }
